@@ -53,7 +53,13 @@ def load_known(prop):
 
 
 def known_for(known, oid):
-    return [k for k in known if fnmatch.fnmatchcase(oid, k["obligation"])]
+    """findings whose obligation glob (or one of the globs in "obligations") matches"""
+    out = []
+    for k in known:
+        pats = k.get("obligations") or [k["obligation"]]
+        if any(fnmatch.fnmatchcase(oid, p) for p in pats):
+            out.append(k)
+    return out
 
 
 def parse_region(region, decls):
